@@ -18,3 +18,11 @@ func VerifChannelMapping(m api.ChannelManager, f func(mapping *util.ChannelMappi
 	defer r.channelLock.Unlock()
 	f(r.channelMapping, r.channelForwardMap)
 }
+
+// VerifForwardMsg lets the manager meet a (message-less) pack that has to be forwarded to the given channel, as a channel
+// handler does when it reads a pack of a collection that lives on another channel than its own.
+func VerifForwardMsg(m api.ChannelManager, channel string, msg *api.ReplicateMsg) {
+	if r, ok := m.(*replicateChannelManager); ok {
+		r.forwardMsg(channel, msg)
+	}
+}
